@@ -721,6 +721,9 @@ def stream_expr(c):
             # the default rule evaluates a 0-d constant through `eval_once`, i.e. SIMPLIFIED (a failing operand may be simplified away);
             # the model evaluates strictly.  Only reachable for expressions whose evaluation raises anyway.
             c.count('expr-default-rule-on-failing-constant'); bounds_differ = False
+        if bounds_differ and rb == 'raise' and rv == 'raise' and mv != 'raise' and ('loopConcat' in tok or 'loopSum' in tok):
+            # the default rule evaluates the constant node, and the compiled code evaluates loop-invariant parts of loops that run zero times
+            c.count('expr-default-rule-hoisted-invariant-raises'); bounds_differ = False
         if bounds_differ: ndis['bounds'] += 1
         if mdeps != rdeps: ndis['deps'] += 1
         eval_differs = mv != rv
